@@ -150,8 +150,9 @@ def _run_chunk_inner(pid: str, chunk: list):
         "harness_errors": [],
     }
     signal.signal(signal.SIGALRM, _alarm)
+    case_timeout = int(os.environ.get("VF_CASE_TIMEOUT") or getattr(m, "TIMEOUT", CASE_TIMEOUT))
     for case in chunk:
-        signal.alarm(CASE_TIMEOUT)
+        signal.alarm(case_timeout)
         try:
             r = m.run_case(case)
         except _Timeout:
